@@ -5,6 +5,7 @@ modes: symbolic (linear identities decided for all values), label-coded integers
 """
 from __future__ import annotations
 
+import numpy as np
 from hypothesis import strategies as st
 
 from vlib import build, gen, model
@@ -85,16 +86,20 @@ def run_case(desc):
         require(d is None, "sum_to", f"{d}; x{xd['letters']} -> {letters}")
         require(eq(mx.total(), MArr.from_flodym(res).total()), "sum_to", "grand total not preserved")
         # values-only variants
-        import numpy as np
-
         v = x.sum_values_to(tuple(letters))
         require(np.shape(v) == tuple(len(mx.items[l]) for l in letters), "sum_values_to", "shape")
+        if mode != "sym":
+            require(eq(mx.total(), x.sum_values()), "sum_values", "grand total")
+            require(np.allclose(np.asarray(v, float), np.asarray(res.values, float), rtol=0, atol=0), "sum_values_to", "differs from sum_to")
     elif op == "sum_over":
         res = x.sum_over(name_dims(U, letters, naming, x))
         keep = [l for l in xd["letters"] if l not in letters]
         exp = mx.sum_to(keep)
         d = model.diff(exp, MArr.from_flodym(res), eq)
         require(d is None, "sum_over", f"{d}; x{xd['letters']} over {letters}")
+        if mode != "sym":
+            v = x.sum_values_over(tuple(letters))
+            require(np.array_equal(np.asarray(v, float), np.asarray(res.values, float)), "sum_values_over", "differs from sum_over")
     elif op == "cumsum":
         l = letters[0]
         res = x.cumsum(l)
@@ -113,6 +118,8 @@ def run_case(desc):
         got = MArr.from_flodym(res)
         d = model.diff(exp, got, eq)
         require(d is None, "cast_to", f"{d}; x{xd['letters']} -> {letters}")
+        if mode != "sym":
+            require(np.array_equal(np.asarray(x.cast_values_to(tgt), float), np.asarray(res.values, float)), "cast_values_to", "differs from cast_to")
         n_added = 1
         for l in letters:
             if l not in xd["letters"]:
